@@ -306,6 +306,8 @@ def kept_whenever_kept_elsewhere(it: M.Interp, k: Formula, premise: Formula) -> 
     if not free_:
         return None
     hard = sorted(names_ - set(free_))
+    if len(hard) + len(free_) > 16:
+        return None
     for env_u in M.assignments(free_):
         somewhere = False
         everywhere = True
@@ -553,10 +555,19 @@ def state_carriers(repo: Repo, visited: set[str]) -> list:
     for f in repo.all_functions():
         if f.fq not in visited or isinstance(f.node, ast.Lambda) or f.name in ("__init__", "__post_init__", "__new__"):
             continue
+        loops = [n for n in own_nodes(f.node) if isinstance(n, (ast.For, ast.AsyncFor, ast.While))]
         for w in eff.writes(f):
             if w.root_kind == "self" or w.root_kind in ("classvar", "global"):
                 out.append(w)
-    return out
+            elif w.root_kind == "local" and f.name not in ("__init__", "__post_init__"):
+                # a local container that lives across the iterations of a loop and is changed inside it
+                for lp in loops:
+                    inside = {id(n) for st in lp.body for n in ast.walk(st)}
+                    if id(w.node) in inside and not any(isinstance(n, ast.Name) and n.id == w.root and isinstance(n.ctx, ast.Store) for st in [lp.target] if isinstance(lp, (ast.For, ast.AsyncFor)) for n in ast.walk(st)) and not any(isinstance(n, ast.Name) and n.id == w.root and isinstance(n.ctx, ast.Store) for st in lp.body for n in ast.walk(st)):
+                        out.append(w)
+                        break
+    # fields of `self` first: they outlive the call
+    return sorted(out, key=lambda w: 0 if w.root_kind != "local" else 1)
 
 
 def check_order(repo: Repo, res: Result, it: M.Interp, internal: set[str]) -> None:
